@@ -118,6 +118,13 @@ class TrajectoryParser:
                 f"Expected - {len(lifted_function.signature)} and received - {len(fluent_signature_items)}"
             )
 
+        # the signature is keyed by the object names, so repeated objects are recorded separately
+        # (the same bookkeeping that the problem parser uses).
+        repeating_items = {
+            object_name: fluent_signature_items.count(object_name)
+            for object_name in fluent_signature_items
+            if fluent_signature_items.count(object_name) > 1
+        }
         if self.problem is None:
             self.logger.debug(
                 "Since we don't know the objects in the problem, we don't need to validate their types."
@@ -126,7 +133,11 @@ class TrajectoryParser:
                 object_name: list(lifted_function.signature.values())[index]
                 for index, object_name in enumerate(fluent_signature_items)
             }
-            return PDDLFunction(name=function_name, signature=fluent_signature)
+            return PDDLFunction(
+                name=function_name,
+                signature=fluent_signature,
+                repeating_variables=repeating_items,
+            )
 
         possible_objects = {**self.problem.objects, **self.partial_domain.constants}
         fluent_signature = {
@@ -138,7 +149,11 @@ class TrajectoryParser:
         ):
             assert grounded_param_type.is_sub_type(lifted_param_type)
 
-        return PDDLFunction(name=function_name, signature=fluent_signature)
+        return PDDLFunction(
+            name=function_name,
+            signature=fluent_signature,
+            repeating_variables=repeating_items,
+        )
 
     def parse_grounded_predicate(
         self, grounded_predicate_ast: List[str], lifted_predicate: Predicate
